@@ -9,6 +9,23 @@ NOTE = ("Trusted: Lean 4.33 kernel (axioms propext, Classical.choice, Quot.sound
         "differential correspondence streams named here (agreement on generated inputs, not a proof of the tie). ")
 
 CLAIMS = {
+ 'C12': dict(
+   text="PARTIAL (proof that the model is entitled to be a function + repeated observation of the process). Lean theorems: sites_accounted (the list of every "
+        "construct of /repo whose behaviour can depend on something other than its input - ranges over maps, channels and iterator functions, goroutines, channel "
+        "sends, clock/random/environment reads, and the sort calls that neutralise a map order - regenerated from the TYPE-CHECKED source on every run, equals the "
+        "list accounted for one by one); for every map-order loop the modelled result is the same for EVERY iteration order (any permutation of the entries): "
+        "semitone_order_irrelevant (Degree.Semitone), accidental_order_irrelevant (NewAccidental), inverse_maps_order_irrelevant + inverted_tables_injective "
+        "(util.InverseMap, 4 tables), key_signature_map_order_irrelevant, chain_order_irrelevant (KeyConversionChain over a Set, from C14), listings_sorted "
+        "(info key list / conv: collected in any order then sorted = same list; String order total/antisymmetric), validation_order_irrelevant (Map.validate). "
+        "Observed on the real binary by the `repeat` stream, real vs real: every data-producing command (text parse/conv, write, write event/conv/parse, info "
+        "attr/chord/key list/describe/conv, gen attr) on 340 (3,000) argument/input cases x 3 (8) re-runs under GOMAXPROCS 1,2,4,16,3,8, with --debug, input as "
+        "`-` and as FILE, output to -o FILE (file = stdout bytes, stdout empty, nothing left on failure), plus a -race build of crd on the text-conv cases and "
+        "every 7th other case (no DATA RACE report, same bytes).",
+   note="Known finding kept: with --debug a syntax error makes goyacc print `state-N saw TOKEN` on stdout (the only difference, established per case by the "
+        "stream). Not provable in any model: the Go scheduler and channel FIFO order (assumed: one producer, one consumer), cobra/OS file handling. The "
+        "--velocity usage text lists the dynamics in map order (help text, not a data-producing command; recorded in DESIGN.md, not checked).",
+   technique="Lean 4 proof: permutation-invariance lemmas (findSome?/find?/lookup/all/mergeSort under List.Perm) applied to every map-order loop enumerated by a go/types site extractor; real-vs-real repetition incl. race-detector build",
+   ref="6 (C12)"),
  'C09': dict(
    text="PARTIAL (proof for the modelled logic, watchdog observation for the process). Lean theorems for ALL inputs: text_conv_never_crashes / "
         "text_parse_never_crashes (any byte sequence, either notation, any --key), write_never_crashes / write_conv_never_crashes (any instances document as "
